@@ -272,6 +272,8 @@ def _plan(tier):
     plan.append(("refresh", dict(n=1, forced=True), ("done",)))
     for v in (0, 1, 2):
         plan.append(("kinetic", dict(n=1, vetoes=v), ("done",)))
+    plan.append(("reference", dict(n=1, nsteps=1, apply_constraints=True, reassign=False), (), "momenta==velocity-verlet"))
+    plan.append(("kinetic", dict(n=1, vetoes=1), (), "kinetic-energy-of-fresh-momenta"))
     return plan
 
 
